@@ -128,6 +128,7 @@ func checkSym(c symCase) (string, caseStat) {
 		if len(dec.pt) != 0 {
 			return "ill-formed decryption returned output alongside an error: " + dec.String(), st
 		}
+		st.nontrivial = len(exp.wrong) == 1 // the twin with this one component right succeeds
 		return "", st
 	}
 
@@ -520,7 +521,7 @@ func TestSymRapid(t *testing.T) {
 			wrongKinds = append(wrongKinds, k.Name)
 		}
 	}
-	vk.Check(t, 40000, 1200000, func(rt *rapid.T) {
+	vk.Check(t, 40000, 4000000, func(rt *rapid.T) {
 		c := symCase{API: rapid.SampledFrom([]string{"sym", "generic"}).Draw(rt, "api"), Alg: rapid.SampledFrom(names).Draw(rt, "alg"), KeyKind: "oct"}
 		spec, _ := refcrypto.Spec(c.Alg)
 		switch k := rapid.IntRange(0, 19).Draw(rt, "keyClass"); {
